@@ -474,3 +474,173 @@ Example pacing_recreated_entry :
   = [(Wake, [CallLock]); (LockOk, []); (Tick 400000000000, [Eval 1 400000000000]); (Refresh 401000000000 [], []);
      (Refresh 461000000000 [(1%positive, 299999)], []); (Tick 461001000001, [Eval 1 461001000001])].
 Proof. vm_compute. reflexivity. Qed.
+
+(* ------------------------------------------------------------------------------------------------------------ *)
+(* 4. The configuration step: minInterval is the shortest configured interval                                    *)
+(* ------------------------------------------------------------------------------------------------------------ *)
+From Coq Require Import Permutation.
+
+Lemma configure_fold_min : forall acc m, configure_fold acc m = Z.min acc (eff_interval m).
+Proof.
+  intros acc m. unfold configure_fold. cbv zeta.
+  destruct (eff_interval m <? acc) eqn:H; [apply Z.ltb_lt in H | apply Z.ltb_ge in H]; lia.
+Qed.
+
+Lemma fold_configure_le_acc : forall mods acc, fold_left configure_fold mods acc <= acc.
+Proof.
+  induction mods as [|m r IH]; intros acc; simpl; [lia|].
+  specialize (IH (configure_fold acc m)). rewrite configure_fold_min in *. lia.
+Qed.
+
+Lemma fold_configure_le : forall mods acc m, In m mods -> fold_left configure_fold mods acc <= eff_interval m.
+Proof.
+  induction mods as [|m0 r IH]; intros acc m Hin; simpl in *; [contradiction|].
+  destruct Hin as [->|Hin]; [|apply IH; exact Hin].
+  pose proof (fold_configure_le_acc r (configure_fold acc m)) as H. rewrite configure_fold_min in *. lia.
+Qed.
+
+Lemma fold_configure_in : forall mods acc,
+  fold_left configure_fold mods acc = acc \/ In (fold_left configure_fold mods acc) (map eff_interval mods).
+Proof.
+  induction mods as [|m r IH]; intros acc; simpl; [left; reflexivity|].
+  destruct (IH (configure_fold acc m)) as [H|H]; [|right; right; exact H].
+  rewrite H. rewrite configure_fold_min.
+  destruct (Z.min_spec acc (eff_interval m)) as [[_ ->]|[_ ->]]; [left; reflexivity | right; left; reflexivity].
+Qed.
+
+Lemma fold_configure_perm : forall mods mods', Permutation mods mods' ->
+  forall acc, fold_left configure_fold mods acc = fold_left configure_fold mods' acc.
+Proof.
+  induction 1 as [|x l l' _ IH|x y l|l l' l'' _ IH1 _ IH2]; intros acc; simpl.
+  - reflexivity.
+  - apply IH.
+  - f_equal. rewrite !configure_fold_min. lia.
+  - rewrite IH1. apply IH2.
+Qed.
+
+Lemma fold_configure_ext : forall mods mods', map eff_interval mods = map eff_interval mods' ->
+  forall acc, fold_left configure_fold mods acc = fold_left configure_fold mods' acc.
+Proof.
+  induction mods as [|m r IH]; intros [|m' r'] Heq acc; simpl in *; try discriminate; [reflexivity|].
+  inversion Heq as [[Hm Hr]]. rewrite !configure_fold_min, Hm. apply IH. exact Hr.
+Qed.
+
+(* no module: the fixed large number of seconds *)
+Theorem min_interval_none : configure_min [] = no_module_interval.
+Proof. reflexivity. Qed.
+
+(* at least one module (every interval a proper int64 below MaxInt64): minInterval is the shortest configured interval *)
+Theorem min_interval_is_min : forall mods,
+  mods <> [] -> (forall m, In m mods -> eff_interval m < max_int64) ->
+  shortest mods (configure_min mods).
+Proof.
+  intros mods Hne Hlt. unfold configure_min, shortest. cbv zeta.
+  destruct mods as [|m0 r]; [congruence|].
+  assert (Hm0 : fold_left configure_fold (m0 :: r) max_int64 < max_int64).
+  { pose proof (fold_configure_le (m0 :: r) max_int64 m0 (or_introl eq_refl)). specialize (Hlt m0 (or_introl eq_refl)). lia. }
+  destruct (fold_left configure_fold (m0 :: r) max_int64 =? max_int64) eqn:He; [apply Z.eqb_eq in He; lia|].
+  split.
+  - destruct (fold_configure_in (m0 :: r) max_int64) as [H|H]; [lia | exact H].
+  - intros m Hin. apply fold_configure_le. exact Hin.
+Qed.
+
+Lemma shortest_unique : forall mods i j, shortest mods i -> shortest mods j -> i = j.
+Proof.
+  intros mods i j [Hi1 Hi2] [Hj1 Hj2].
+  apply in_map_iff in Hi1 as [mi [<- Hmi]]. apply in_map_iff in Hj1 as [mj [<- Hmj]].
+  specialize (Hi2 _ Hmj). specialize (Hj2 _ Hmi). lia.
+Qed.
+
+(* ... whatever order the module map is iterated in *)
+Theorem min_interval_order : forall mods mods', Permutation mods mods' -> configure_min mods = configure_min mods'.
+Proof. intros mods mods' H. unfold configure_min. rewrite (fold_configure_perm _ _ H). reflexivity. Qed.
+
+(* ... and it depends on nothing but the modules' interval keys (not on send-interval, threshold) *)
+Theorem min_interval_only_interval : forall mods mods',
+  map mc_interval mods = map mc_interval mods' -> configure_min mods = configure_min mods'.
+Proof.
+  intros mods mods' H. unfold configure_min. rewrite (fold_configure_ext mods mods'); [reflexivity|].
+  assert (Hm : forall l, map eff_interval l = map (fun o => viper_get o default_interval) (map mc_interval l))
+    by (intros l; rewrite map_map; reflexivity).
+  rewrite !Hm, H. reflexivity.
+Qed.
+
+Lemma configure_min_nonneg : forall mods, (forall m, In m mods -> 0 <= eff_interval m) -> 0 <= configure_min mods.
+Proof.
+  intros mods H. unfold configure_min. cbv zeta.
+  destruct (fold_left configure_fold mods max_int64 =? max_int64); [unfold no_module_interval; lia|].
+  destruct (fold_configure_in mods max_int64) as [-> | Hin]; [unfold max_int64; lia|].
+  apply in_map_iff in Hin as [m [<- Hm]]. apply H. exact Hm.
+Qed.
+
+(* C15, second sentence, end to end: for every configuration (non-negative int64 intervals) and every trace of the loop
+   configured by it, two evaluations of one group entry are more than the shortest configured interval apart *)
+Theorem pacing_configured : forall mods i c0 gs tr l1 e1 a1 l2 e2 a2 l3 g t1 t2,
+  (forall m, In m mods -> 0 <= eff_interval m < max_int64) ->
+  shortest mods i ->
+  snd (run (step_s (configure_min mods)) (init_state c0 gs) tr) = l1 ++ (e1, a1) :: l2 ++ (e2, a2) :: l3 ->
+  In (Eval g t1) a1 -> In (Eval g t2) a2 ->
+  forallb (keeps g) (map fst l2) = true ->
+  t2 - t1 > i * ns_per_s.
+Proof.
+  intros mods i c0 gs tr l1 e1 a1 l2 e2 a2 l3 g t1 t2 Hr Hs Hrun H1 H2 Hk.
+  assert (Hne : mods <> []) by (destruct Hs as [Hin _]; destruct mods; [contradiction | discriminate]).
+  rewrite (shortest_unique mods i (configure_min mods) Hs (min_interval_is_min mods Hne (fun m Hm => proj2 (Hr m Hm)))).
+  eapply pacing; try eassumption. apply configure_min_nonneg. intros m Hm. apply (proj1 (Hr m Hm)).
+Qed.
+
+Theorem pacing_configured_interleaved : forall mods i c0 gs tr l1 e1 a1 l2 e2 a2 l3 g t1 t2,
+  (forall m, In m mods -> 0 <= eff_interval m < max_int64) ->
+  shortest mods i ->
+  snd (run (step_i (configure_min mods)) (init_state c0 gs) tr) = l1 ++ (e1, a1) :: l2 ++ (e2, a2) :: l3 ->
+  In (Eval g t1) a1 -> In (Eval g t2) a2 ->
+  forallb (keeps g) (map fst l2) = true ->
+  t2 - t1 > i * ns_per_s.
+Proof.
+  intros mods i c0 gs tr l1 e1 a1 l2 e2 a2 l3 g t1 t2 Hr Hs Hrun H1 H2 Hk.
+  assert (Hne : mods <> []) by (destruct Hs as [Hin _]; destruct mods; [contradiction | discriminate]).
+  rewrite (shortest_unique mods i (configure_min mods) Hs (min_interval_is_min mods Hne (fun m Hm => proj2 (Hr m Hm)))).
+  eapply pacing_interleaved; try eassumption. apply configure_min_nonneg. intros m Hm. apply (proj1 (Hr m Hm)).
+Qed.
+
+(* the pace is the shortest interval and no slower: while the gate is open, an iteration of the request loop evaluates
+   every group whose last evaluation is more than the shortest configured interval old *)
+Theorem evaluated_when_due : forall mods i s now g le,
+  (forall m, In m mods -> eff_interval m < max_int64) ->
+  shortest mods i ->
+  doEval s = true -> ph s <> Crashed ->
+  PositiveMap.find g (groups s) = Some le -> now - le > i * ns_per_s ->
+  In (Eval g now) (snd (step_s (configure_min mods) s (Tick now))).
+Proof.
+  intros mods i [p d c gs] now g le Hr Hs Hd Hp Hf Hgt. simpl in *. subst d.
+  assert (Hne : mods <> []) by (destruct Hs as [Hin _]; destruct mods; [contradiction | discriminate]).
+  rewrite (shortest_unique mods i (configure_min mods) Hs (min_interval_is_min mods Hne Hr)) in Hgt.
+  unfold step_s, step_i. simpl.
+  destruct p; simpl; try congruence;
+    (apply tick_evals_complete with le; [exact Hf | unfold due, send_before; apply Z.ltb_lt; lia]).
+Qed.
+
+(* non-vacuity: two modules, intervals 30 / 60, send-intervals 300 / 5: minInterval is 30 in either order (not 5, not 60,
+   not 300); the loop configured by it evaluates at 31 s, not at 36 s (send-interval 5) nor at 61 s, again at 61 s + 1 ns *)
+Definition two_modules : list modcfg := [mkMod (Some 30) (Some 300) None; mkMod (Some 60) (Some 5) (Some 1)].
+
+Example min_interval_example :
+  configure_min two_modules = 30 /\ configure_min (rev two_modules) = 30 /\ shortest two_modules 30
+  /\ configure_min [mkMod None (Some 5) None; mkMod (Some 61) None None] = 60
+  /\ configure_min [mkMod (Some 0) None None; mkMod None None None] = 0.
+Proof.
+  repeat split; try (vm_compute; reflexivity).
+  - vm_compute. auto.
+  - intros m [<-|[<-|[]]]; vm_compute; discriminate.
+Qed.
+
+Example pacing_configured_example :
+  (forall m, In m two_modules -> 0 <= eff_interval m < max_int64) /\
+  snd (run (step_s (configure_min two_modules)) (init_state true one_group)
+         [Wake; LockOk; Tick 31000000000; Tick 36000000000; Tick 61000000000; Tick 61000000001])
+  = [(Wake, [CallLock]); (LockOk, []); (Tick 31000000000, [Eval 1 31000000000]); (Tick 36000000000, []);
+     (Tick 61000000000, []); (Tick 61000000001, [Eval 1 61000000001])].
+Proof.
+  split; [|vm_compute; reflexivity].
+  intros m [<-|[<-|[]]]; vm_compute; split; congruence.
+Qed.
